@@ -93,6 +93,9 @@ def units(ctx):
         'combinations x 2 entry points, falsy and generator documents, '
         'YaqlInterface call forms, statement reuse across contexts: the '
         'finalised result is plain data'))
+    from contracts import utils as _ut
+    from vlib.pyvc.unit import contract_unit as _cu2
+    us += [_cu2(c, world_setup=_ut.setup) for c in _ut.predicate_contracts()]
     return us
 
 
